@@ -8,31 +8,31 @@ import (
 // AutoRow is one line of automan.txt (automatic management table). Day/month values are rendered in
 // the date format of the project (the reader concatenates them with the year of the rotation entry).
 type AutoRow struct {
-	Crop           string `json:"crop"`
-	Sow1M, Sow1D   int    // earliest sowing (0,0 = fixed date of the rotation file)
-	Sow2M, Sow2D   int    // latest sowing
-	Har2M, Har2D   int    // latest harvest (0,0 = date of the rotation file)
-	TS10           int    // soil temperature threshold, tenths
-	TSIsMax        bool   // 'x' flag: threshold is a maximum
-	SmoMin10       int    // sowing moisture window, tenths of % nFK
-	SmoMax10       int
-	HmoMin10       int
-	HmoMax10       int
-	RainAv10       int
-	RainAct10      int
-	TAccu          int
-	TBase          int
-	IrrSt1, IrrSt2 int
-	Ndem1, Ndem2, Ndem3 int
+	Crop                   string `json:"crop"`
+	Sow1M, Sow1D           int    // earliest sowing (0,0 = fixed date of the rotation file)
+	Sow2M, Sow2D           int    // latest sowing
+	Har2M, Har2D           int    // latest harvest (0,0 = date of the rotation file)
+	TS10                   int    // soil temperature threshold, tenths
+	TSIsMax                bool   // 'x' flag: threshold is a maximum
+	SmoMin10               int    // sowing moisture window, tenths of % nFK
+	SmoMax10               int
+	HmoMin10               int
+	HmoMax10               int
+	RainAv10               int
+	RainAct10              int
+	TAccu                  int
+	TBase                  int
+	IrrSt1, IrrSt2         int
+	Ndem1, Ndem2, Ndem3    int
 	Stage1, Stage2, Stage3 string // "S3" stage or "120" day of year or "0"
-	TWindow        int
-	OrgF           string
-	OrgAmount      int
-	OrgTime        string // "H" | "S" | "0"
-	OrgDoy         int
-	IrrLow         int
-	IrrDep         int
-	IrrMax         int
+	TWindow                int
+	OrgF                   string
+	OrgAmount              int
+	OrgTime                string // "H" | "S" | "0"
+	OrgDoy                 int
+	IrrLow                 int
+	IrrDep                 int
+	IrrMax                 int
 }
 
 func (r AutoRow) Line(format int) string {
